@@ -40,17 +40,23 @@ BCKLIN_CONFS = {
     "rk23loose_b45": ("rk23", {"atol": 1e-3, "rtol": 1e-3}, {"method": "rk45", "atol": TIGHT, "rtol": TIGHT}),
 }
 
-TOL1 = 1e-6           # first order, adaptive/tight and finest grid of rk4/rk38
-TOL2 = 1e-5           # second order
-FLOOR = 1e-9          # refinement test: an error below this is round-off / reference noise, not discretisation error
-EULER_TOL = 0.15      # finest Euler grid (>= 129 points): O(h) error, only gross errors are excluded by the tolerance
-RATIO = {4: 0.35, 1: 0.80}     # required error reduction per halving (expected 1/16 and 1/2)
+# Tolerances (relative, see _kind_errors).  Calibration on the repaired tree, seeds 0..3 and 7, both tiers (largest error seen):
+#   rk45-only configurations   first order 2e-9,  second order 5e-8   -> 1e-6 / 1e-5
+#   configurations with rk23   first order 2e-8,  second order 1.2e-7 -> 1e-5 / 1e-4
+#   rk4/rk38 finest grid (33..65 points) first order 7e-7, second order on the once-refined grid 3e-5 -> 1e-4 / 5e-3
+#   linear system, tight backward, inaccurate forward: dL/dy0 5e-11 -> 1e-6
+TOL_TIGHT = {False: (1e-6, 1e-5), True: (1e-5, 1e-4)}      # key: configuration involves rk23
+TOL_GRID4 = (1e-4, 5e-3)
+TOL_BCKLIN = 1e-6
+FLOOR = 1e-8          # refinement test: an error below this is not required to shrink further
+RATIO = {4: 0.35, 1: 0.80}     # required error reduction per halving (expected 1/16 and 1/2; observed <= 0.13 and <= 0.56)
 
-FAMILIES = ["linsys", "forced", "separable", "logistic"]
+FAMILIES = ["linsys", "forced", "separable", "logistic", "yindep"]
 PMODES = ["explicit", "nn", "em", "mixed_nn", "mixed_em"]
 COTS = ["dense", "one", "two", "first", "last"]
 TUPLE_SHAPES = [[[1], [2, 1]], [[2], [1, 2]], [[1], [1, 1], [2]]]
-THETA_NAMES = {"linsys": ["A", "s", "b", "w"], "forced": ["a", "b", "w"], "separable": ["a", "b", "w"], "logistic": ["r", "K"]}
+THETA_NAMES = {"linsys": ["A", "s", "b", "w"], "forced": ["a", "b", "w"], "separable": ["a", "b", "w"], "logistic": ["r", "K"],
+               "yindep": ["c", "b", "w"]}
 
 
 def _theta_names(desc):
@@ -87,11 +93,11 @@ REQUIRED_COUNTERS = {
     "quick": {"first_nograph_path": 40, "first_graph_path": 40, "second_order_compared": 30, "ts_grad_compared": 60,
               "ts_second_adaptive": 5, "tuple_state": 10, "decreasing_ts": 40, "objparams_grad_compared": 30,
               "unused_checked": 20, "bck_different": 30, "rhs_calls_backward": 1000, "bcklin_compared": 10,
-              "refinement_tests": 20, "cot_one_time": 20},
+              "refinement_tests": 20, "cot_one_time": 20, "aliased_compared": 20},
     "thorough": {"first_nograph_path": 400, "first_graph_path": 400, "second_order_compared": 300, "ts_grad_compared": 600,
                  "ts_second_adaptive": 50, "tuple_state": 100, "decreasing_ts": 400, "objparams_grad_compared": 300,
                  "unused_checked": 200, "bck_different": 300, "rhs_calls_backward": 10000, "bcklin_compared": 100,
-                 "refinement_tests": 200, "cot_one_time": 200},
+                 "refinement_tests": 200, "cot_one_time": 200, "aliased_compared": 200},
 }
 
 
@@ -105,6 +111,7 @@ def _common(rng, d):
     d["tuple"] = d["family"] == "linsys" and rng.random() < 0.4
     d["tshape"] = rng.randrange(len(TUPLE_SHAPES))
     d["ystruct"] = rng.choice(["list", "tuple"])
+    d["rstruct"] = rng.choice(["list", "tuple"])
     d["decreasing"] = rng.random() < 0.45
     d["ragged"] = rng.random() < 0.6
     d["cot"] = rng.choice(COTS)
@@ -123,7 +130,7 @@ def cases(seed, tier):
     quick = tier == "quick"
     # ---- adaptive integrators, first order (one backward code path per case) and second order
     tight = [k for k, v in CONFS.items() if v[3] == "tight"]
-    n_ad = 260 if quick else 3000
+    n_ad = 520 if quick else 5200
     for i in range(n_ad):
         rng = random.Random(sub_seed(seed, "c08a", i))
         d = _common(rng, {"group": "adaptive", "seed": sub_seed(seed, "c08as", i)})
@@ -151,7 +158,7 @@ def cases(seed, tier):
                 k += 1
     # ---- fixed-step integrators (and mixed fixed/adaptive): refinement protocol
     grid = [k for k, v in CONFS.items() if v[3] == "grid"]
-    n_fx = 150 if quick else 1800
+    n_fx = 300 if quick else 3000
     for i in range(n_fx):
         rng = random.Random(sub_seed(seed, "c08f", i))
         d = _common(rng, {"group": "fixed", "seed": sub_seed(seed, "c08fs", i)})
@@ -160,8 +167,18 @@ def cases(seed, tier):
         d["order"] = 2 if i % 4 == 3 else 1
         d["cg"] = (i // 4) % 2 if d["order"] == 1 else 1
         out.append(d)
+    # ---- one tensor supplied in two places (twice in params, or as an object's parameter and in params)
+    n_al = 60 if quick else 600
+    for i in range(n_al):
+        rng = random.Random(sub_seed(seed, "c08l", i))
+        d = _common(rng, {"group": "alias", "seed": sub_seed(seed, "c08ls", i)})
+        d.update(family=rng.choice(["linsys", "forced", "separable", "yindep"]), timemod=True, alias=True,
+                 pmode=rng.choice(["explicit", "mixed_nn", "mixed_em"]), conf=rng.choice(["rk45", "rk45", "rk45_btol", "rk23_b45"]),
+                 nt=rng.choice([2, 3, 4]), order=2 if i % 3 == 2 else 1)
+        d["cg"] = (i // 3) % 2 if d["order"] == 1 else 1
+        out.append(d)
     # ---- bck_options honoured: linear systems, inaccurate forward, tight backward; dL/dy0 only
-    n_bl = 48 if quick else 480
+    n_bl = 96 if quick else 960
     names = sorted(BCKLIN_CONFS)
     for i in range(n_bl):
         rng = random.Random(sub_seed(seed, "c08b", i))
@@ -226,6 +243,12 @@ def build_problem(desc):
             vals["w"] = _u(tgen, 1.0, 3.0)
             y0v = torch.randn(*bshape, m, dtype=DT, generator=tgen)
             y0v = y0v + 0.3 * torch.sign(y0v)
+        elif fam == "yindep":
+            vals["c"] = torch.randn(m, dtype=DT, generator=tgen)
+            vals["b"] = _u(tgen, 0.5, 1.5)
+            vals["w"] = _u(tgen, 1.0, 3.0)
+            consts["phi"] = rng.uniform(0.0, 3.0)
+            y0v = torch.randn(*bshape, m, dtype=DT, generator=tgen)
         elif fam == "logistic":
             vals["r"] = _u(tgen, 0.5, 2.0, (m,))
             vals["K"] = _u(tgen, 0.8, 2.0)
@@ -255,6 +278,7 @@ def build_problem(desc):
     P.T = T
     # ---- leaves
     derived = bool(desc.get("derived"))
+    alias = bool(desc.get("alias"))       # one tensor supplied in two places (names b and w share it)
     leaves = []       # (kind, name, leaf tensor)
 
     def mk(v, rg, kind, name, allow_derived=True):
@@ -276,23 +300,31 @@ def build_problem(desc):
         objset = []
     elif pmode in ("nn", "em"):
         objset = list(names)
+    elif alias:
+        objset = names[:names.index("w")]          # b lives in the object, w is passed explicitly
     else:
         objset = names[:1] if len(names) <= 2 or rng.random() < 0.5 else names[:2]
+    if alias and pmode in ("nn", "em"):
+        raise HarnessBug("alias cases are generated for explicit / mixed parameter modes only")
     P.objset = objset
+    nn_mode = pmode in ("nn", "mixed_nn")
     th = {}
     for k_, nm in enumerate(names):
         rg = bool(desc["rg_th"] >> k_ & 1)
         in_obj = nm in objset
-        kind = "obj" if in_obj else "theta"
-        nn_obj = in_obj and pmode in ("nn", "mixed_nn")
-        th[nm] = mk(vals[nm], rg, kind, nm, allow_derived=not nn_obj)
+        if alias and nm == "w":
+            continue
+        if alias and nm == "b":
+            th[nm] = mk(_u(tgen, 1.0, 1.4), True, "alias", nm, allow_derived=not (in_obj and nn_mode))
+            continue
+        th[nm] = mk(vals[nm], rg, "obj" if in_obj else "theta", nm, allow_derived=not (in_obj and nn_mode))
     P.th = th
     P.y0, P.ts = y0, ts
     unused = None
     if desc.get("unused"):
         unused = torch.randn(2, dtype=DT, generator=tgen).requires_grad_()
-    P.unused = unused
-    P.unused_kind = None
+    unused_explicit = unused is not None and (pmode == "explicit" or (pmode.startswith("mixed") and rng.random() < 0.5))
+    P.unused_kind = None if unused is None else ("theta" if unused_explicit else "obj")
     P.leaves = leaves
     P.consts = consts
     P.cnt = {"fwd": 0, "bwd": 0, "bwd2": 0}
@@ -300,6 +332,7 @@ def build_problem(desc):
     phi = consts.get("phi", 0.0)
     is_tuple = P.is_tuple
     shapes = getattr(P, "shapes", None)
+    rstruct = desc.get("rstruct", desc.get("ystruct", "list"))
 
     # ---- the dynamics, written from the differential equation (the reference below is written from its solution)
     def rhs(t, y, q):
@@ -307,7 +340,7 @@ def build_problem(desc):
         if fam == "linsys":
             if is_tuple:
                 if not isinstance(y, (list, tuple)) or len(y) != len(shapes):
-                    raise HarnessBug("tuple state not passed as a sequence of %d tensors" % len(shapes))
+                    raise TypeError("tuple state not passed to the right-hand side as a sequence of %d tensors" % len(shapes))
                 flat = torch.cat([yi.reshape(-1) for yi in y])
             else:
                 flat = y
@@ -321,7 +354,7 @@ def build_problem(desc):
                     k__ = int(math.prod(s_))
                     res.append(out[o:o + k__].reshape(s_))
                     o += k__
-                return res if desc.get("ystruct") == "list" else tuple(res)
+                return res if rstruct == "list" else tuple(res)
             return out
         if fam == "forced":
             return -q["a"] * y + q["b"] * torch.sin(q["w"] * t + q["phi"])
@@ -329,57 +362,50 @@ def build_problem(desc):
             return (-q["a"] * t + q["b"] * torch.cos(q["w"] * t)) * y
         if fam == "logistic":
             return q["r"] * y * (1 - y / q["K"])
+        if fam == "yindep":          # does not depend on y at all
+            return (q["b"] * torch.cos(q["w"] * t + q["phi"]) * q["c"]).expand(y.shape)
         raise HarnessBug(fam)
 
     exnames = [nm for nm in names if nm not in objset]
-    extra_pos = None
-    params = [th[nm] for nm in exnames]
     sig = list(exnames)
-    if fam == "forced":          # a non-tensor parameter
-        pos = rng.randrange(len(params) + 1)
-        params.insert(pos, phi)
-        sig.insert(pos, "phi")
-    if unused is not None and (pmode == "explicit" or (pmode.startswith("mixed") and rng.random() < 0.5)):
-        pos = rng.randrange(len(params) + 1)
-        params.insert(pos, unused)
-        sig.insert(pos, "_unused")
-        P.unused_kind = "theta"
-    P.params = tuple(params)
+    if fam in ("forced", "yindep"):          # a non-tensor parameter
+        sig.insert(rng.randrange(len(sig) + 1), "phi")
+    if unused_explicit:
+        sig.insert(rng.randrange(len(sig) + 1), "_unused")
+
+    def gather(obj, ex):
+        q = dict(zip(sig, ex))
+        q.setdefault("phi", phi)
+        for nm in objset:
+            q[nm] = getattr(obj, nm)
+        return q
 
     if pmode == "explicit":
         def fcn(t, y, *ex):
-            q = dict(zip(sig, ex))
-            q.setdefault("phi", phi)
-            return rhs(t, y, q)
+            return rhs(t, y, gather(None, ex))
         P.fcn = fcn
         P.obj = None
-    elif pmode in ("nn", "mixed_nn"):
+    elif nn_mode:
         class Mod(torch.nn.Module):
             def __init__(self):
                 super().__init__()
                 for nm in objset:
-                    # the Parameter IS the leaf (nn.Parameter(leaf) would create a different tensor object)
                     setattr(self, nm, torch.nn.Parameter(th[nm].detach().clone(), requires_grad=th[nm].requires_grad))
-                if unused is not None and P.unused_kind is None:
+                if unused is not None and not unused_explicit:
                     self.zz_unused = torch.nn.Parameter(unused.detach().clone())
 
             def forward(self, t, y, *ex):
-                q = dict(zip(sig, ex))
-                q.setdefault("phi", phi)
-                for nm in objset:
-                    q[nm] = getattr(self, nm)
-                return rhs(t, y, q)
+                return rhs(t, y, gather(self, ex))
         mod = Mod()
-        # replace the leaves of the object-held names by the module's Parameters
+        # the module's Parameters ARE the leaves of the object-held names
         for nm in objset:
-            p = getattr(mod, nm)
-            th[nm] = p
+            prm = getattr(mod, nm)
+            th[nm] = prm
             for i_, (kind, name, leaf) in enumerate(leaves):
                 if name == nm:
-                    leaves[i_] = (kind, name, p)
-        if unused is not None and P.unused_kind is None:
-            P.unused = mod.zz_unused
-            P.unused_kind = "obj"
+                    leaves[i_] = (kind, name, prm)
+        if unused is not None and not unused_explicit:
+            unused = mod.zz_unused
         P.fcn = mod.forward if rng.random() < 0.7 else mod
         P.obj = mod
     else:
@@ -387,15 +413,11 @@ def build_problem(desc):
             def __init__(self):
                 for nm in objset:
                     setattr(self, nm, th[nm])
-                if unused is not None and P.unused_kind is None:
+                if unused is not None and not unused_explicit:
                     self.zz_unused = unused
 
             def forward(self, t, y, *ex):
-                q = dict(zip(sig, ex))
-                q.setdefault("phi", phi)
-                for nm in objset:
-                    q[nm] = getattr(self, nm)
-                return rhs(t, y, q)
+                return rhs(t, y, gather(self, ex))
 
             def getparamnames(self, methodname, prefix=""):
                 res = [prefix + nm for nm in objset]
@@ -403,10 +425,12 @@ def build_problem(desc):
                     res.append(prefix + "zz_unused")
                 return res
         em = EM()
-        if unused is not None and P.unused_kind is None:
-            P.unused_kind = "obj"
         P.fcn = em.forward
         P.obj = em
+    if alias:
+        th["w"] = th["b"]         # the very same tensor object in both places
+    P.unused = unused
+    P.params = tuple(phi if nm == "phi" else (unused if nm == "_unused" else th[nm]) for nm in sig)
 
     # ---- closed-form solution on an arbitrary grid built from the same leaves
     def ref(tsx, y0x, q):
@@ -442,6 +466,9 @@ def build_problem(desc):
         if fam == "logistic":
             r, K = q["r"], q["K"]
             return K / (1 + (K / y0x - 1) * torch.exp(-r * (tt - t00)))
+        if fam == "yindep":
+            c, b, w = q["c"], q["b"], q["w"]
+            return y0x + b * c * (torch.sin(w * tt + phi) - torch.sin(w * t00 + phi)) / w
         raise HarnessBug(fam)
     P.ref = ref
     return P, rng, tgen
@@ -677,8 +704,9 @@ def run_case(desc):
         obs.count("conf_%s" % desc["conf"])
         obs.count("pmode_%s" % desc["pmode"])
 
-    if group in ("adaptive", "adaptive_ts_graph", "bcklin"):
-        tag = ("adaptive" if group != "bcklin" else "bcklin") + ":" + fb
+    if group in ("adaptive", "adaptive_ts_graph", "bcklin", "alias"):
+        gname = {"adaptive": "adaptive", "adaptive_ts_graph": "adaptive", "bcklin": "bcklin", "alias": "aliased"}[group]
+        tag = gname + ":" + fb
         out = differentiate(obs, desc, P, conf, P.ts, cot_sel, 1, order, cg, tag)
         if out.failed:
             obs.nontrivial = True
@@ -687,21 +715,24 @@ def run_case(desc):
         path = "cg" if (cg or order == 2) else "nocg"
         if group == "bcklin":
             e = {"y0": out.errs1["y0"]}
-            _check_errs(obs, e, TOL1, "grad1:%%s:bcklin:%s:%s" % (fb, path), "dL/dy0 of a linear system with a tight backward integrator", worst)
+            _check_errs(obs, e, TOL_BCKLIN, "grad1:%%s:bcklin:%s:%s" % (fb, path), "dL/dy0 of a linear system with a tight backward integrator", worst)
             obs.count("bcklin_compared")
             obs.note(errs1=out.errs1, val_err=out.val_err)
         else:
             for k in out.none_kinds:
-                obs.check(False, "grad1_none:%s:adaptive:%s" % (k, path), "gradient None for a leaf of kind %s that enters the solution" % k)
-            _check_errs(obs, out.errs1, TOL1, "grad1:%%s:adaptive:%s:%s" % (fb, path), "first-order gradient", worst)
+                obs.check(False, "grad1_none:%s:%s:%s" % (k, gname, path), "gradient None for a leaf of kind %s that enters the solution" % k)
+            tol1, tol2 = TOL_TIGHT["23" in desc["conf"]]
+            _check_errs(obs, out.errs1, tol1, "grad1:%%s:%s:%s:%s" % (gname, fb, path), "first-order gradient", worst)
             obs.note(errs1=out.errs1, val_err=out.val_err)
             if order == 2 and out.errs2 is not None:
-                _check_errs(obs, out.errs2, TOL2, "grad2:%%s:adaptive:%s" % fb, "second-order gradient", worst)
+                _check_errs(obs, out.errs2, tol2, "grad2:%%s:%s:%s" % (gname, fb), "second-order gradient", worst)
                 obs.count("second_order_compared")
                 if desc["rg_ts"]:
                     obs.count("ts_second_adaptive")
+            if group == "alias":
+                obs.count("aliased_compared")
                 obs.note(errs2=out.errs2)
-        _check_unused(obs, desc, P, out, "adaptive")
+        _check_unused(obs, desc, P, out, gname)
         obs.note(worst_ratio=worst[0], rhs_calls=dict(P.cnt))
         obs.nontrivial = out.scale1 > 0 and P.cnt["bwd"] > 0
         return obs.result()
@@ -727,16 +758,16 @@ def run_case(desc):
             obs.check(False, "grad1_none:%s:fixed:%s" % (k, path), "gradient None for a leaf of kind %s that enters the solution" % k)
         e = [max(l.errs1.values()) for l in levels]
         obs.note(err_levels=e, errs_finest=levels[2].errs1, val_err=[l.val_err for l in levels])
-        tol = TOL1 if p == 4 else EULER_TOL
-        _check_errs(obs, levels[2].errs1, tol, "grad1:%%s:fixed:%s:%s" % (fb, path), "first-order gradient on the finest grid", worst)
+        if p == 4:      # Euler (O(h) error of a few per cent on 129 points) is decided by the refinement test alone
+            _check_errs(obs, levels[2].errs1, TOL_GRID4[0], "grad1:%%s:fixed:%s:%s" % (fb, path), "first-order gradient on the finest grid", worst)
         obs.count("refinement_tests")
         for a_, b_, nm in ((e[0], e[1], "01"), (e[1], e[2], "12")):
             okr = b_ <= max(FLOOR, RATIO[p] * a_)
             obs.check(okr, "refine1:fixed:%s:%s" % (fb, path),
                       "halving the steps reduced the gradient error only from %.3e to %.3e (order %d method)" % (a_, b_, p), errs=e)
         if order == 2 and levels[1].errs2 is not None:
-            tol2 = 1e-4 if p == 4 else 0.5
-            _check_errs(obs, levels[1].errs2, tol2, "grad2:%%s:fixed:%s" % fb, "second-order gradient on the once-refined grid", worst)
+            if p == 4:
+                _check_errs(obs, levels[1].errs2, TOL_GRID4[1], "grad2:%%s:fixed:%s" % fb, "second-order gradient on the once-refined grid", worst)
             obs.count("second_order_compared")
             obs.note(errs2=levels[1].errs2)
         _check_unused(obs, desc, P, levels[1], "fixed")
